@@ -6,6 +6,7 @@ package main
 import (
 	"fmt"
 	"math/big"
+	"sort"
 
 	"github.com/tuneinsight/lattigo/v6/core/rlwe"
 )
@@ -14,7 +15,7 @@ func c04Packing(c *Ctx) {
 	rounds := c.Scale(3, 24)
 	for r := 0; r < rounds; r++ {
 		logN := 5
-		if c.Thorough() && c.rng.Intn(2) == 0 {
+		if c.rng.Intn(2) == 0 {
 			logN = 6
 		}
 		minLogN := logN - 1 - c.rng.Intn(2)
@@ -193,6 +194,140 @@ func c04Packing(c *Ctx) {
 				}
 			}
 		}
+
+		// ---- Pack: plaintext-level definition. Inputs m_k (k in keys, keys < 2^L, L = inputLogGap) carry data
+		// at the multiples of 2^L; out = sum_k X^k * keep_{2^L}(m_k). With zeroGarbageSlots = false and keys that
+		// are multiples of 2^g (g = 2-adic valuation of the smallest gap) only the positions multiple of 2^g are
+		// specified (same formula), the others are garbage.
+		for _, zero := range []bool{true, false} {
+			for rep := 0; rep < c.Scale(2, 4); rep++ {
+				L := 1 + c.rng.Intn(logN)
+				g := 0
+				if !zero {
+					if L < 2 {
+						L = 2
+					}
+					g = c.rng.Intn(L) // 0 .. L-1 : even smallest gap as soon as g >= 1
+					if rep == 0 {
+						g = 1 + c.rng.Intn(L-1)
+					}
+				}
+				// keys = 2^g * S, S a random subset of [0, 2^(L-g)) containing two consecutive integers
+				span := 1 << (L - g)
+				S := map[int]bool{}
+				if zero && c.rng.Intn(2) == 0 {
+					// arbitrary subset, possibly a single key, odd or even gaps
+					n := 1 + c.rng.Intn(span)
+					for len(S) < n {
+						S[c.rng.Intn(span)] = true
+					}
+				} else {
+					a := c.rng.Intn(span - 1)
+					S[a], S[a+1] = true, true
+					for x := 0; x < span; x++ {
+						if c.rng.Intn(3) == 0 {
+							S[x] = true
+						}
+					}
+				}
+				ntt := c.rng.Intn(2) == 0
+				cts := map[int]*rlwe.Ciphertext{}
+				ms := map[int][]int64{}
+				var keyList []int
+				for x := range S {
+					k := x << g
+					keyList = append(keyList, k)
+					ms[k] = c04SmallVec(c, ps.N(), 1<<17)
+					cts[k] = ps.mkCt(sk, ms[k], c04SmallVec(c, ps.N(), 3), [][][]uint64{ps.randRows(c, lvl)}, ntt)
+				}
+				sort.Ints(keyList)
+				pargs := fmt.Sprintf("%s L=%d zero=%s keys=%s ntt=%s", args, L, c04B2s(zero), IVec(keyList), c04B2s(ntt))
+				var out *rlwe.Ciphertext
+				res := Try(func() string {
+					var err error
+					if out, err = eval.Pack(cts, L, zero); err != nil {
+						return "err"
+					}
+					return "ok"
+				})
+				c.Count(fmt.Sprintf("pack:zero%s:g%d:ntt%s", c04B2s(zero), g, c04B2s(ntt)))
+				if res != "ok" || out == nil {
+					c.Probe("pack_completes", pargs, "C04-pack-"+res, "Pack "+res)
+					continue
+				}
+				want := make([]int64, ps.N())
+				var pos []int
+				for p := 0; p < ps.N(); p++ {
+					if !zero && p%(1<<g) != 0 {
+						continue
+					}
+					pos = append(pos, p)
+					k := p % (1 << L)
+					if mk, ok := ms[k]; ok {
+						want[p] = mk[p-k]
+					}
+				}
+				b := new(big.Int).Mul(new(big.Int).Add(bound, big.NewInt(8)), big.NewInt(int64(4*ps.N())))
+				c04ProbeNoiseAt(c, ps, "pack_decrypts", pargs, out, sk, want, pos, b, class)
+			}
+		}
+
+		// ---- Repack: P(X) = sum_i ct_i[0] * X^i from ciphertexts of the smallest ring (non-constant coefficients
+		// of the inputs are arbitrary: Repack zeroes them)
+		for rep := 0; rep < c.Scale(3, 6); rep++ {
+			gap := []int{1, 2, 3, 4, 6, 8}[c.rng.Intn(6)]
+			ntt := c.rng.Intn(2) == 0
+			cts := map[int]*rlwe.Ciphertext{}
+			want := make([]int64, ps.N())
+			sparse := c.rng.Intn(3) == 0 // a few indices only (possibly a single one, possibly all odd)
+			for i := c.rng.Intn(gap); i < ps.N(); i += gap {
+				if (c.rng.Intn(4) == 0 && len(cts) > 0) || (sparse && len(cts) >= 1+rep) {
+					continue
+				}
+				m := c04SmallVec(c, small.N(), 1<<17)
+				cts[i] = small.mkCt(ski[minLogN], m, c04SmallVec(c, small.N(), 3), [][][]uint64{small.randRows(c, lvl)}, ntt)
+				want[i] = m[0]
+			}
+			pargs := fmt.Sprintf("%s gap=%d n=%d ntt=%s", args, gap, len(cts), c04B2s(ntt))
+			var out *rlwe.Ciphertext
+			res := Try(func() string {
+				var err error
+				if out, err = eval.Repack(cts); err != nil {
+					return "err"
+				}
+				return "ok"
+			})
+			c.Count(fmt.Sprintf("repack:gap%d", gap))
+			// root-cause tag: some node of the merge tree has ciphertexts in its odd class only
+			rclass := class
+			{
+				nf := 1 << (logN - minLogN)
+				R := map[int]bool{}
+				for i := range cts {
+					R[i&(nf-1)] = true
+				}
+				for t := nf / 2; t >= 1; t /= 2 {
+					for j := 0; j < t; j++ {
+						if R[j+t] && !R[j] {
+							rclass = "C04-repack-odd-class-without-even-class"
+						}
+						if R[j+t] {
+							R[j] = true
+						}
+					}
+				}
+			}
+			if res != "ok" || out == nil {
+				key := "C04-repack-" + res
+				if rclass != "" {
+					key = rclass
+				}
+				c.Probe("repack_completes", pargs, key, "Repack "+res)
+				continue
+			}
+			b := new(big.Int).Mul(new(big.Int).Add(bound, big.NewInt(8)), big.NewInt(int64(8*ps.N())))
+			c04ProbeNoiseAt(c, ps, "repack_decrypts", pargs, out, sk, want, nil, b, rclass)
+		}
 	}
 }
 
@@ -215,4 +350,53 @@ func (ps *c04PS) noiseConst(ct *rlwe.Ciphertext, sk *rlwe.SecretKey, want int64)
 	r.PolyToBigintCentered(p, 1, coeffs)
 	d := new(big.Int).Sub(coeffs[0], big.NewInt(want))
 	return d.Abs(d)
+}
+
+// c04ProbeNoiseAt: decrypt-and-compare on the listed coefficient positions only (nil = all).
+func c04ProbeNoiseAt(c *Ctx, ps *c04PS, name, args string, out *rlwe.Ciphertext, sk *rlwe.SecretKey, want []int64, pos []int, bound *big.Int, class string) {
+	lvl := out.Level()
+	half := c04ProdBig(ps.Q[:lvl+1])
+	half.Rsh(half, 1)
+	if new(big.Int).Add(bound, big.NewInt(1<<18)).Cmp(half) >= 0 {
+		c.Count("probe-vacuous:" + name)
+		return
+	}
+	dec := rlwe.NewDecryptor(ps.params, sk)
+	pt := rlwe.NewPlaintext(ps.params, lvl)
+	dec.Decrypt(out, pt)
+	r := ps.params.RingQ().AtLevel(lvl)
+	p := r.NewPoly()
+	p.CopyLvl(lvl, pt.Value)
+	if pt.IsNTT {
+		r.INTT(p, p)
+	}
+	coeffs := make([]*big.Int, ps.N())
+	for i := range coeffs {
+		coeffs[i] = new(big.Int)
+	}
+	r.PolyToBigintCentered(p, 1, coeffs)
+	if pos == nil {
+		for i := 0; i < ps.N(); i++ {
+			pos = append(pos, i)
+		}
+	}
+	worst := new(big.Int)
+	at := -1
+	for _, i := range pos {
+		d := new(big.Int).Sub(coeffs[i], big.NewInt(want[i]))
+		d.Abs(d)
+		if d.Cmp(worst) > 0 {
+			worst.Set(d)
+			at = i
+		}
+	}
+	detail := ""
+	if worst.Cmp(bound) > 0 {
+		detail = fmt.Sprintf("noise=%s(bits=%d) at coeff %d bound=%s(bits=%d)", worst, worst.BitLen(), at, bound, bound.BitLen())
+	}
+	key := "C04-" + name
+	if class != "" {
+		key = class
+	}
+	c.Probe(name, args, key, detail)
 }
